@@ -229,6 +229,11 @@ func verifAofFileMode() {
 				verifCutCopy(filepath.Join(master, wname), filepath.Join(image, wname), verifAtoi(t[1]))
 				verifCutCopy(filepath.Join(master, wname+".dat"), filepath.Join(image, wname+".dat"), verifAtoi(t[2]))
 				fmt.Fprintln(out, "ok")
+			case "imagefull": // both files complete
+				_ = os.MkdirAll(image, 0755)
+				verifCutCopy(filepath.Join(master, wname), filepath.Join(image, wname), verifFileSize(filepath.Join(master, wname)))
+				verifCutCopy(filepath.Join(master, wname+".dat"), filepath.Join(image, wname+".dat"), verifFileSize(filepath.Join(master, wname+".dat")))
+				fmt.Fprintln(out, "ok")
 			case "put": // put <filename> <hex>   raw file into the image (multi-file cases)
 				_ = os.MkdirAll(image, 0755)
 				if werr := ioutil.WriteFile(filepath.Join(image, t[1]), verifUnhex(t[2]), 0644); werr != nil {
